@@ -144,6 +144,13 @@ CACHE_BACKEND = dict(
                  collectives={})),
     ])
 
+SERIALIZE = dict(
+    out="Serialize", file="executorlib/standalone/serialize.py",
+    funcs=[
+        dict(py="serialize_funct_h5", opaque={"fn.__name__": "fn_name"},
+             opaque_fun={"cloudpickle.dumps": ("dumps", 1), "_get_hash": ("get_hash", 1)}),
+    ])
+
 SHARED_RES = dict(
     out="SharedRes", file="executorlib/interactive/shared.py", requires=["InputCheck"],
     funcs=[
@@ -208,4 +215,4 @@ BASE_EXEC = dict(
                           params=["self", "resource_dict"], returns=["resource_dict"])),
     ])
 
-TARGETS = [INPUTCHECK, SPAWNER, COMMUNICATION, BACKEND, SHARED_PATH, CACHE_CMD, WORKER_SERIAL, WORKER_PARALLEL, CACHE_PARALLEL, CACHE_BACKEND, SHARED_RES, CACHE_RES, CONFIG_INTER, CONFIG_FILE, CONFIG_TOP, BASE_EXEC]
+TARGETS = [INPUTCHECK, SPAWNER, COMMUNICATION, BACKEND, SHARED_PATH, CACHE_CMD, WORKER_SERIAL, WORKER_PARALLEL, CACHE_PARALLEL, CACHE_BACKEND, SERIALIZE, SHARED_RES, CACHE_RES, CONFIG_INTER, CONFIG_FILE, CONFIG_TOP, BASE_EXEC]
